@@ -197,13 +197,34 @@ def extracted_schedmon(repo):
                          None, "", [], "schedmon_fx", MON_CONS, [spec])
 
 
+# Scheduler.send_packet, the child PROCESS every multi-queue scheduler starts per packet (a generator: cut at its yield by
+# vlib/translate_gen.py): Gen/Extracted_sendpacket_run.v; bridged to the SChildInit / SChildTimer steps of Elem/SchedBase.v by
+# coq/Elem/SchedRunBridge.v; obligations in Props/C12_BridgeRun.v
+SENDP_STATE = [("queue_count", "mapZ"), ("queue_byte_size", "mapZ")]
+SENDP_READS = [("packet.size", "size", "Z"), ("packet.flow_id", "flow", "Z"), ("self.rate", "rate", "Q"),
+               ("self.out", "out_set", "optobj")]
+SENDP_FX = [("self.current_packet = packet", "FxSetCurrent", []), ("self.current_packet = None", "FxClearCurrent", []),
+            ("self.out.put(packet)", "FxOutPut", [])]
+SENDP_FX_CONS = [("FxSetCurrent", ""), ("FxClearCurrent", ""), ("FxOutPut", "")]
+SENDP_REQUESTS = [("self.env.timeout(_1)", "RqTimeout", ["Q"], None), ("env.timeout(_1)", "RqTimeout", ["Q"], None)]
+
+
+def extracted_sendpacket_run(repo):
+    import os
+    from vlib import translate_gen as tg
+    spec = tg.GenSpec(os.path.join(repo, "onl", "scheduler", "base.py"), "Scheduler", "send_packet", "gen_Scheduler_send_packet",
+                      reads=SENDP_READS, effects=SENDP_FX, requests=SENDP_REQUESTS, objects=["packet"], param_objects=["packet"])
+    return tg.gen_run_module("onl/scheduler/base.py: Scheduler.send_packet", spec, SENDP_STATE, "sendp_st", "sd_", "sendp_fx",
+                             SENDP_FX_CONS, [("RqTimeout", "(d : Q)")], types="sendp")
+
+
 class MQPart:
     name = "mq"
     kinds = ["sp", "rr", "wrr", "schedmon", "mq2", "mqfloat"]
     serves = ["C12", "C13", "C15", "C08"]
     weight = 3
     coq_imports = ["From ONL Require Import Base.Cmp Elem.Packet Elem.StoreQ Elem.SchedBase Elem.SP Elem.RR Elem.WRR."]
-    props_files = {"C12": ["Props/C12_MQ.v", "Props/C12_BridgeMQ.v", "Props/C12_BridgeMon.v"], "C13": ["Props/C13.v", "Props/C13_Bridge.v"], "C15": ["Props/C15_RR.v"],
+    props_files = {"C12": ["Props/C12_MQ.v", "Props/C12_BridgeMQ.v", "Props/C12_BridgeMon.v", "Props/C12_BridgeRun.v"], "C13": ["Props/C13.v", "Props/C13_Bridge.v"], "C15": ["Props/C15_RR.v"],
                    "C08": ["Props/C08_MQ.v"]}
 
     # ---- second tie: regenerate the translated bodies before the Coq build (fail closed) ----------------
@@ -217,6 +238,7 @@ class MQPart:
             return
         tr.write_if_changed(os.path.join(fw.COQ, "Gen", "Extracted_mq.v"), extracted_mq(fw.REPO))
         tr.write_if_changed(os.path.join(fw.COQ, "Gen", "Extracted_schedmon.v"), extracted_schedmon(fw.REPO))
+        tr.write_if_changed(os.path.join(fw.COQ, "Gen", "Extracted_sendpacket_run.v"), extracted_sendpacket_run(fw.REPO))
 
     _gen = ("1-5 configured flows, SP priorities / WRR weights from small sets (equal priorities frequent), for SP in half of "
             "the cases a many-to-one flow2class map (1-3 classes, class ids different from the flow ids), RR flow lists "
@@ -249,7 +271,12 @@ class MQPart:
             "coq/Gen/Extracted_mq.v and Extracted_schedmon.v from Scheduler.add_packet_to_queue, MultiQueueScheduler.put, SP.put and "
             "the per-flow statements of Monitor.run of the tree under test before every build; the C12_gen_* theorems "
             "(Props/C12_BridgeMQ.v, C12_BridgeMon.v) bridge them to the SPut / SSample steps of the hand-written model; Monitor's loop over "
-            "all_flows() itself is not translated"]
+            "all_flows() itself is not translated",
+            "vlib/translate_gen.py (generator bodies cut at their yields, fail closed; tables SENDP_* in props/part_mq.py) regenerates "
+            "coq/Gen/Extracted_sendpacket_run.v from Scheduler.send_packet (the child process of SP / RR / WRR) before every build; the "
+            "C12_gen_send_packet_* theorems (Props/C12_BridgeRun.v, proofs Elem/SchedRunBridge.v) prove SChildInit / SChildTimer of the "
+            "automaton equal to the generated functions; the run() bodies of SP / RR / WRR (for-loops over the class table that cross "
+            "yields) are not translated: correspondence only"]
     _tie13 = ["vlib/translate.py (Python ast, fail closed) regenerates coq/Gen/Extracted_spinit.v from SP.__init__ of the tree under test "
               "before every build; C13_gen_sp_init (Props/C13_Bridge.v) bridges the sorted(...) line to the scan order of the model "
               "(Python's sorted is taken as a stable sort); SP.run's scan itself is a generator and not translated here"]
